@@ -39,6 +39,16 @@ class Stop(Exception):
     pass
 
 
+def build_block(ctx, cls, *args):
+    """legal configurations only (1 <= W <= DW, DW multiple of 8): the constructor must succeed"""
+    try:
+        return cls(*args)
+    except Exception as ex:
+        ctx.violation({'what': 'constructing %s%s (a legal configuration) raised %s: %s' % (cls.name, args, type(ex).__name__, ex),
+                       'block': cls.name, 'config(W, DW)': list(args)})
+        raise Stop()
+
+
 def known(ctx, fid):
     for f in ctx.known:
         if f['id'] == fid and f.get('status') == 'known': return f
@@ -83,7 +93,7 @@ def ctx_inputs(blk):
 
 
 # ------------------------------------------------------------------ random / patterned schedules: tie (a) (b) (c)
-def random_sweep(ctx, n_sched, n_cycles, with_coq):
+def random_sweep(ctx, n_sched, n_cycles, with_coq, n_coq=10 ** 9):
     rng = random.Random(ctx.seed * 7919 + 16)
     a_cases, b_cases, dumps = [], [], []
     a_kinds = ['random', 'session', 'back2back', 'midreset']
@@ -92,7 +102,7 @@ def random_sweep(ctx, n_sched, n_cycles, with_coq):
         W, DW = WIDTHS[k % len(WIDTHS)]
         for cls, kinds in ((B.A2R, a_kinds), (B.R2A, b_kinds)):
             kind = kinds[(k // len(WIDTHS) + k) % len(kinds)]
-            blk = cls(W, DW)
+            blk = build_block(ctx, cls, W, DW)
             n = rng.randint(n_cycles // 2, n_cycles)
             sched = B.a2r_schedule(rng, DW, n, kind) if cls is B.A2R else B.r2a_schedule(rng, W, n, kind)
             mon = B.A2RMonitor(W) if cls is B.A2R else B.R2AMonitor(W, DW)
@@ -109,7 +119,7 @@ def random_sweep(ctx, n_sched, n_cycles, with_coq):
             if viol:
                 ctx.violation(viol); raise Stop()
             if k < 2: ctx.sample({'block': blk.name, 'W': W, 'DW': DW, 'kind': kind, 'first_cycles': [list(x) for x in sched[:4]], 'outputs': tr[:4]})
-            (a_cases if cls is B.A2R else b_cases).append((W, DW, sched, tr))
+            if k < n_coq: (a_cases if cls is B.A2R else b_cases).append((W, DW, sched, tr))
             if dp:
                 ids = [dp.wid[id(w)] for w in blk.inw]
                 steps = [([(wid, v) for wid, v in zip(ids, i)], 1) for i in sched]
@@ -152,7 +162,7 @@ def random_sweep(ctx, n_sched, n_cycles, with_coq):
                                'W': W, 'DW': DW, 'diff(step,(wire,impl,model))': df, 'schedule': [list(x) for x in sched]}, found_input=False)
                 raise Stop()
     ctx.log('random sweep compared in Coq')
-    ctx.notes['random_schedules'] = {'Axi2Reg': len(a_cases), 'Reg2Axi': len(b_cases), 'netlists_under_kernel_model': len(dumps)}
+    ctx.notes['random_schedules'] = {'per_block_under_monitor': n_sched, 'Axi2Reg_in_Coq': len(a_cases), 'Reg2Axi_in_Coq': len(b_cases), 'netlists_under_kernel_model': len(dumps)}
     return True
 
 
@@ -162,7 +172,7 @@ def closure(ctx, cls, W, DW, data, depth):
     (the real block is restored to the snapshot, stepped, observed).  Each schedule of length <= depth over `data` is a path
     of this graph; when the frontier empties before `depth` the graph is closed and every longer schedule is covered too.
     Each transition is checked by the monitor (c) and collected for the one-step comparison in Coq (a)."""
-    blk = cls(W, DW)
+    blk = build_block(ctx, cls, W, DW)
     nctl = 4 if cls is B.A2R else 5
     inputs = [bits + (d,) for bits in itertools.product((0, 1), repeat=nctl) for d in data]
     def mk_mon(state=None):
@@ -255,7 +265,7 @@ def snapshot_matches(blk, full_snapshot, model_snapshot):
 def explicit_paths(ctx, cls, W, DW, data, depth):
     """every schedule of length <= depth over `data`, explicitly (depth-first, restoring the real block's snapshot), each
     whole path under the monitor including its history reading.  No memoisation."""
-    blk = cls(W, DW)
+    blk = build_block(ctx, cls, W, DW)
     nctl = 4 if cls is B.A2R else 5
     inputs = [bits + (d,) for bits in itertools.product((0, 1), repeat=nctl) for d in data]
     count = [0]
@@ -297,7 +307,7 @@ def fsm_sweep(ctx, n_sched, with_coq):
     dumps = []
     # Axi2Clk: handshakes with small targets, sometimes back to back
     for k in range(n_sched):
-        blk = B.A2C(64)
+        blk = build_block(ctx, B.A2C, 64)
         dp = blk.dump() if with_coq and k < 2 else None
         iv = dp.values() if dp else None
         sched = [(1, 0, 0, 0, 1)]
@@ -322,7 +332,7 @@ def fsm_sweep(ctx, n_sched, with_coq):
             dumps.append((dp, [([(wid, v) for wid, v in zip(ids, i)], 1) for i in sched], iv, full, 'Axi2Clk', sched))
     # VitisKernelFSM: ap_done wire high after a cycle iff the FSM was in state 2 and saw all_sent; high exactly one cycle
     for k in range(n_sched):
-        blk = B.VKF()
+        blk = build_block(ctx, B.VKF)
         dp = blk.dump() if with_coq and k < 2 else None
         iv = dp.values() if dp else None
         sched = [tuple(B._bits(rng, p) for p in (0.4, 0.0, 0.4, 0.4)) for _ in range(50)]
@@ -349,6 +359,29 @@ def fsm_sweep(ctx, n_sched, with_coq):
                 raise Stop()
 
 
+def port_directions(ctx):
+    """AXI4StreamInterface + addInterfaceSink / addInterfaceSource: the sink reads tvalid/tdata(/tlast/tkeep) and drives tready,
+    the source drives tvalid/tdata/tlast/tkeep and reads tready."""
+    for cls, ins, outs in ((B.A2R, {'ap_start', 'ap_reset', 'ap_done', 'tvalid', 'tdata'}, {'tready', 'q', 'loaded', 'active'}),
+                           (B.R2A, {'ap_start', 'ap_reset', 'ap_done', 'load_outs', 'reg_in', 'tready'}, {'tvalid', 'tdata', 'tlast', 'tkeep', 'sent', 'active'})):
+        blk = build_block(ctx, cls, 8, 8)
+        gi, go = {p.name for p in blk.dut.inPorts}, {p.name for p in blk.dut.outPorts}
+        ctx.count((cls.name, 'ports'))
+        if gi != ins or go != outs:
+            ctx.violation({'what': '%s: stream port directions differ from the AXI4-Stream roles' % cls.name, 'block': cls.name,
+                           'in_ports': sorted(gi), 'out_ports': sorted(go), 'expected_in': sorted(ins), 'expected_out': sorted(outs)})
+            raise Stop()
+        # each stream wire must be the very wire object of the interface (no copies)
+        for p in blk.dut.inPorts + blk.dut.outPorts:
+            if p.name in ('tvalid', 'tready', 'tdata', 'tlast', 'tkeep'):
+                w = {'tvalid': 0, 'tdata': 1, 'tlast': 2, 'tkeep': 3}
+                exp = blk.inw[3 if p.name == 'tvalid' else 4] if (cls is B.A2R and p.name != 'tready') else \
+                      blk.outw[3] if cls is B.A2R else blk.inw[4] if p.name == 'tready' else blk.outw[w[p.name]]
+                if p.wire is not exp:
+                    ctx.violation({'what': '%s: port %s is not connected to the interface wire' % (cls.name, p.name), 'block': cls.name})
+                    raise Stop()
+
+
 # ------------------------------------------------------------------ entry points
 def run(ctx):
     ctx.cov['rule'] = ('obligations: theorems of Properties/C16.v over the gate-level models built from the regenerated primitives; '
@@ -367,13 +400,14 @@ def run(ctx):
     gc.disable()        # hundreds of thousands of small tuples are alive during the sweeps; collections only cost time
     ctx.log('proofs built: %s' % r['ok'])
     try:
-        random_sweep(ctx, 32 if q else 320, 36 if q else 60, with_coq=model_ok)
+        port_directions(ctx)
+        random_sweep(ctx, 32 if q else 320, 36 if q else 60, with_coq=model_ok, n_coq=32 if q else 128)
         infos = []
         for cls in (B.A2R, B.R2A):
             infos.append(closure(ctx, cls, 1, 8, (0, 1), 64))                      # 1-bit data: closes, i.e. all schedules of every length
-            if cls is B.A2R or not q:
+            if True:
                 infos.append(closure(ctx, cls, 2, 8, (0, 1, 2, 3, 5) if cls is B.A2R else (0, 1, 2, 3), 64))
-            explicit_paths(ctx, cls, 1, 8, (0, 1), 3 if q else 4)
+            explicit_paths(ctx, cls, 1, 8, (0, 1), 3 if q else (5 if cls is B.A2R else 4))
         if not q:
             infos.append(closure(ctx, B.A2R, 3, 8, tuple(range(8)) + (8, 255), 64))
         if model_ok: closure_coq(ctx, infos)
